@@ -554,3 +554,79 @@ Proof.
   rewrite (KP.facts_ok_Fexp K.F0 HF).
   apply (fresh_probe_is_tokenize_model Ha).
 Qed.
+
+(* ====================================================================================================================
+   Correspondence entry: the instantiated machine run over a whole history (executable; used by the case files)
+   ==================================================================================================================== *)
+(* get_word_info_subset from the tables shipped with a case.  Which fields are filled under the subset L follows
+   WordInfoParser::parse (Model/Codec.v parse_fields): the fields in file order, a string / array field is read when its
+   flag is set and skipped otherwise, a fixed-size field is read whenever the parser gets that far, and the parser
+   stops as soon as no requested flag is left. *)
+Fixpoint parse_flags (fs : list (N * bool)) (flds : N) : list bool :=
+  match fs with
+  | [] => []
+  | (bit, heavy) :: r =>
+      if flds =? 0 then repeat false (S (List.length r))
+      else (if heavy then N.testbit flds bit else true) :: parse_flags r (N.clearbit flds bit)
+  end.
+(* surface, head_word_length, pos_id, normalized_form, dictionary_form_word_id, reading_form, a, b, word_structure, synonyms *)
+Definition field_layout : list (N * bool) :=
+  [(0, true); (1, false); (2, false); (3, true); (4, false); (5, true); (6, true); (7, true); (8, true); (9, true)].
+
+Definition gi_of_tables (winfos : list (N * T.winfo)) (hw : list (N * N)) (ua ub : list (N * list N)) (L w : N) : option C.winfo :=
+  match find (fun x => N.eqb (fst x) w) winfos with
+  | None => None
+  | Some (_, wi) =>
+      let fl := parse_flags field_layout L in
+      let on (k : nat) := nth k fl false in
+      Some (fun f => match f with
+                     | C.F_surface => C.VText (if on 0%nat then T.wi_surf wi else [])
+                     | C.F_hwlen => C.VNum (if on 1%nat then T.assoc hw 0 w else 0)
+                     | C.F_pos => C.VNum (if on 2%nat then T.wi_pos wi else 0)
+                     | C.F_norm => C.VText (if on 3%nat then T.wi_norm wi else [])
+                     | C.F_dfwi => C.VInt (if on 4%nat then (-1)%Z else 0%Z)
+                     | C.F_dicform => C.VText (if on 4%nat then T.wi_dform wi else [])
+                     | C.F_reading => C.VText (if on 5%nat then T.wi_rform wi else [])
+                     | C.F_a => C.VArr (if on 6%nat then T.assoc ua [] w else [])
+                     | C.F_b => C.VArr (if on 7%nat then T.assoc ub [] w else [])
+                     | C.F_ws | C.F_syn => C.VArr []
+                     end)
+  end.
+
+(* one operation with what it shows: analyse -> (0, outcome, 0), collect -> (1, 0 / 2 = panic, number of nodes collected) *)
+Definition step_ev (E : K.env) (o : K.op) (y : K.sys) : list (N * N * N) * K.sys :=
+  match o with
+  | K.OAnalyse t => let '(r, s') := K.analyse K.F0 E t (K.tk y) in ([(0, K.flag_of r, 0)], K.mkSys s' (K.lists y))
+  | K.OCollect k =>
+      match nth_error (K.lists y) k with
+      | Some l => match K.collect (K.tk y) l with
+                  | Some (s', l') => ([(1, 0, N.of_nat (List.length (K.l_nodes l')))], K.mkSys s' (K.set_nth k l' (K.lists y)))
+                  | None => ([(1, 2, 0)], y)
+                  end
+      | None => ([], y)
+      end
+  | _ => ([], K.run_op K.F0 E o y)
+  end.
+
+Fixpoint run_ev (E : K.env) (ops : list K.op) (y : K.sys) : list (N * N * N) * K.sys :=
+  match ops with
+  | [] => ([], y)
+  | o :: r => let '(e1, y1) := step_ev E o y in let '(e2, y2) := run_ev E r y1 in (e1 ++ e2, y2)
+  end.
+
+Definition ev_eqb (a b : N * N * N) : bool :=
+  let '(x, y, z) := a in let '(x', y', z') := b in (x =? x') && (y =? y') && (z =? z').
+
+(* One case: the instantiated machine replays the history (its outcomes and collected lengths must be the
+   implementation's), then the probe; what the probe reports -- byte range in the original text and word id of every
+   morpheme -- must be what the real tokenizer reported after the same history.  None = the real probe answered Err. *)
+Definition check_conc (base : T.tokenizer) (winfos : list (N * T.winfo)) (hw : list (N * N)) (ua ub : list (N * list N))
+           (m0 : K.tmode) (ops : list K.op) (events : list (N * N * N)) (t : K.text) (impl : option (list (N * N * N))) : bool :=
+  let E := E_conc base (gi_of_tables winfos hw ua ub) in
+  let '(evs, y) := run_ev E ops (K.mkSys (K.create m0) []) in
+  H.list_eqb ev_eqb evs events &&
+  match report_probe (K.probe K.F0 E t (K.tk y)), impl with
+  | B.Ok ms, Some l => T.same_morphemes ms l
+  | B.Err, None => true
+  | _, _ => false
+  end.
